@@ -166,24 +166,33 @@ class RawPeer:
             how = "reset:" + type(e).__name__
         return bytes(buf), how
 
-    async def send_all(self, payload: bytes, chunks=None):
+    async def send_all(self, payload: bytes, chunks=None, pauses=None):
+        """`pauses[i]` virtual seconds of silence before the i-th chunk (the last entry: before
+        whatever is left, or before returning - i.e. before the caller closes)."""
         r, w = self.data
         how = "ok"
+        pauses = list(pauses or ())
         try:
-            if chunks is None:
+            if chunks is None and not pauses:
                 w.write(payload)
                 await w.drain()
             else:
                 pos = 0
-                for n in chunks:
+                for n in chunks or ():
                     if pos >= len(payload):
                         break
+                    if pauses:
+                        await asyncio.sleep(pauses.pop(0))
                     w.write(payload[pos : pos + n])
                     pos += n
                     await w.drain()
+                if pauses:
+                    await asyncio.sleep(pauses.pop(0))
                 if pos < len(payload):
                     w.write(payload[pos:])
                     await w.drain()
+                if pauses:
+                    await asyncio.sleep(pauses.pop(0))
         except ConnectionError as e:
             how = "reset:" + type(e).__name__
         return how
